@@ -32,10 +32,13 @@ META = {
             'the same again; given, inverse or internally computed sub-blocks) or default subdomains throughout; block_jacobi / '
             'block_gauss_seidel / cf_ / fc_block_jacobi with and without Dinv and with another block size; jacobi_ne / gauss_seidel_ne / '
             'gauss_seidel_nr with and without Dinv; polynomial with other coefficients of the same length; each call judged against the Lean '
-            'model and the dense formula for ITS arguments',
-    'search_only': ['cf_block_jacobi / fc_block_jacobi (block_jacobi_indexed kernel): compared with an independent dense NumPy formula '
-                    '(tolerance 1e-8 normwise; part C and the histories of part E), not with a Lean model',
-                    'single-precision complex (complex64) jacobi / gauss_seidel, CSR and BSR: dense formula, tolerance 2e-4',
+            'model and the dense formula for ITS arguments (cf_ / fc_block_jacobi included: model pubCFBlockJacobi). Part F (extension E33): '
+            'cf_block_jacobi / fc_block_jacobi (CSR or BSR input, block size 1-3, C/F lists that partition the block rows, sorted or not, or '
+            'arbitrary lists with repetitions / overlap / gaps / empty, f_iterations and c_iterations 0-2, exact / arbitrary / default Dinv), the '
+            'raw block_jacobi_indexed kernel on arbitrary index lists, and the public block_jacobi / block_gauss_seidel / gauss_seidel_nr on CSR '
+            'input against the models that INCLUDE the storage conversion (Model/ExtC09XIndexed.lean: blockJacobiIndexed, pyCFBlockJacobi, '
+            'pubBlockJacobi, pubBlockGaussSeidel, pubCFBlockJacobi, pubGaussSeidelNR)',
+    'search_only': ['single-precision complex (complex64) jacobi / gauss_seidel, CSR and BSR: dense formula, tolerance 2e-4',
                     'schwarz call histories that mix default and given subdomains, or decompositions of different total length, on one '
                     'matrix object are NOT generated (the unchanged code raises / reuses the cached decomposition there; reported)',
                     'default inverse blocks (Dinv=None, inv_subblock=None: pyamg inverts with its SVD kernel / LAPACK gelss): the '
@@ -46,8 +49,12 @@ META = {
                     'arithmetic is exact (bit-exact agreement is counted as feature bit_exact / ext:bit_exact; otherwise 1e-9); '
                     'inverse blocks are INPUTS of the block / Schwarz models; the theorems assume they are exact inverses '
                     '(LeftInv / RightInv / SubRightInv), which the generator establishes exactly for the dyadic-invertible families',
-                    'the SciPy conversions A.tobsr / A.tocsc are modelled (Csr.toBsr, Csr.toCsc) and compared array by array with '
-                    'SciPy, but no theorem relates them to the CSR rows'],
+                    'the SciPy conversions A.tobsr / A.tocsc are modelled (Csr.toBsr, Csr.toCsc), compared array by array with SciPy, and '
+                    'their meaning is proved (tobsr_block_entry, tobsr_row_times_vector, tocsc_column_list, tocsc_matvec): the public_*_layers '
+                    'theorems state the block / NR updates in the CSR rows and dense entries of the INPUT matrix; CsrLeftInv / CsrRightInv '
+                    '(Dinv inverts the dense diagonal blocks of the CSR input) are hypotheses like LeftInv / RightInv',
+                    'block_jacobi_indexed with a block index outside the matrix reads outside its arrays (no defined behaviour): the model '
+                    'rejects such index lists and the generator does not produce them'],
 }
 
 
@@ -824,6 +831,40 @@ from fractions import Fraction
 EXT_METHODS = ['block_jacobi', 'block_gauss_seidel', 'polynomial', 'jacobi_ne', 'gauss_seidel_ne', 'gauss_seidel_nr',
                'schwarz', 'k_block_jacobi', 'k_block_gauss_seidel', 'k_schwarz', 'tobsr', 'tocsc']
 
+# extension E33: methods with a Lean model in Model/ExtC09XIndexed.lean (part F; cf_ / fc_ also in the histories of part E)
+E33_METHODS = ['cf_block_jacobi', 'fc_block_jacobi', 'k_block_jacobi_indexed', 'pub_block_jacobi', 'cf_block_jacobi', 'fc_block_jacobi',
+               'pub_block_gauss_seidel', 'pub_gauss_seidel_nr']
+_E33_PUBLIC = {'pub_block_jacobi': 'block_jacobi', 'pub_block_gauss_seidel': 'block_gauss_seidel', 'pub_gauss_seidel_nr': 'gauss_seidel_nr'}
+_E33_BASE = dict(_E33_PUBLIC, cf_block_jacobi='block_jacobi', fc_block_jacobi='block_jacobi', k_block_jacobi_indexed='k_block_jacobi')
+LINE_METHODS = EXT_METHODS + ['cf_block_jacobi', 'fc_block_jacobi']
+
+
+def e33_case(rng, t):
+    """a case of part F: the matrix / Dinv / vectors of the corresponding part-D generator, plus index lists"""
+    method = E33_METHODS[t % len(E33_METHODS)]
+    cplx = (t // len(E33_METHODS)) % 4 == 3
+    c = ext_case(rng, EXT_METHODS.index(_E33_BASE[method]) + len(EXT_METHODS) * (3 if cplx else 0))
+    assert c['complex'] == cplx
+    c['method'] = method
+    if method in _E33_PUBLIC:
+        c['fmt'] = 'csr'
+        return c
+    nb = c['nb']
+    if rng.random() < 0.6:      # a partition of the block rows, sorted (the usual splitting) or in arbitrary order
+        perm = rng.permutation(nb)
+        k0 = int(rng.integers(0, nb + 1))
+        C, F = [int(v) for v in perm[:k0]], [int(v) for v in perm[k0:]]
+        if rng.random() < 0.6:
+            C, F = sorted(C), sorted(F)
+        c['lists'] = 'partition'
+    else:                       # arbitrary lists: repetitions, overlap, rows in neither list, empty lists
+        C = [int(v) for v in rng.integers(0, nb, size=int(rng.integers(0, nb + 2)))]
+        F = [int(v) for v in rng.integers(0, nb, size=int(rng.integers(0, nb + 2)))]
+        c['lists'] = 'free'
+    c.update({'Cpts': C, 'Fpts': F, 'f_iterations': int(rng.integers(0, 3)), 'c_iterations': int(rng.integers(0, 3))})
+    return c
+
+
 
 def _jl(a):
     """array -> JSON-able list (complex entries as [re, im])"""
@@ -1110,6 +1151,31 @@ def ext_call(c):
             R.block_gauss_seidel(Ain, x, b, iterations=c['iterations'], sweep=c['sweep'], blocksize=bs, **kw)
         extra['modified'] = (_h(Ain.data) != hA) or _h(b) != hb
         return x, extra
+    if method in ('cf_block_jacobi', 'fc_block_jacobi'):
+        bs, nb = c['bs'], c['nb']
+        Dinv = _ja(c['Dinv'], cplx).reshape(nb, bs, bs).astype(dt)
+        Ain = A
+        if c['fmt'] == 'bsr':
+            Ain = A.tobsr(blocksize=(bs, bs))
+            Ain.indptr, Ain.indices = Ain.indptr.astype(np.int32), Ain.indices.astype(np.int32)
+            extra['bsr'] = (Ain.indptr.tolist(), Ain.indices.tolist(), Ain.data.ravel().copy())
+            hA = _h(Ain.data)
+        kw = {} if c['mode'].startswith('default') else {'Dinv': Dinv.copy()}
+        fn = R.cf_block_jacobi if method == 'cf_block_jacobi' else R.fc_block_jacobi
+        fn(Ain, x, b, np.array(c['Cpts'], dtype=np.int32), np.array(c['Fpts'], dtype=np.int32), blocksize=bs, iterations=c['iterations'],
+           f_iterations=c['f_iterations'], c_iterations=c['c_iterations'], omega=c['omega'], **kw)
+        extra['modified'] = (_h(Ain.data) != hA) or _h(b) != hb
+        return x, extra
+    if method == 'k_block_jacobi_indexed':
+        bs, nb = c['bs'], c['nb']
+        B = A.tobsr(blocksize=(bs, bs))
+        bp, bj, bx = B.indptr.astype(np.int32), B.indices.astype(np.int32), np.ravel(B.data).astype(dt)
+        extra['bsr'] = (bp.tolist(), bj.tolist(), bx.copy())
+        Dinv = _ja(c['Dinv'], cplx).astype(dt)
+        amg_core.block_jacobi_indexed(bp, bj, bx, x, b, Dinv, np.array(c['Cpts'], dtype=np.int32), np.array([c['omega']], dtype=dt), bs)
+        return x, extra
+    if method in _E33_PUBLIC:
+        return ext_call(dict(c, method=_E33_PUBLIC[method], fmt='csr'))
     if method in ('k_block_jacobi', 'k_block_gauss_seidel'):
         bs, nb = c['bs'], c['nb']
         B = A.tobsr(blocksize=(bs, bs))
@@ -1206,6 +1272,33 @@ def ext_line(c, extra):
         if method == 'block_jacobi':
             return f'{P}bjac {_encq(frac(c["omega"]))} {mat} {vec("b")} {vec("x")} {dinv} {c["iterations"]}'
         return f'{P}bgs {mat} {vec("b")} {vec("x")} {dinv} {c["iterations"]} {c["sweep"]}'
+    P33 = 'e33_c_' if cplx else 'e33_r_'
+    if method in ('cf_block_jacobi', 'fc_block_jacobi', 'pub_block_jacobi', 'pub_block_gauss_seidel'):
+        if 'bsr' in extra:
+            bp, bj, bx = extra['bsr']
+            mat = f'bsr {c["nb"]} {c["bs"]} {enc_ints(bp)} {enc_ints(bj)} {ev(bx)}'
+        else:
+            mat = f'csr {c["n"]} {c["bs"]} {enc_ints(c["indptr"])} {enc_ints(c["indices"])} {vec("data")}'
+        if c['mode'].startswith('default'):
+            inv = _default_block_inverses(c)
+            if inv is None:
+                return None
+            dinv = _encqs(inv, cplx)
+        else:
+            dinv = vec('Dinv')
+        if method == 'pub_block_jacobi':
+            return f'{P33}pbjac {_encq(frac(c["omega"]))} {mat[4:]} {vec("b")} {vec("x")} {dinv} {c["iterations"]}'
+        if method == 'pub_block_gauss_seidel':
+            return f'{P33}pbgs {mat[4:]} {vec("b")} {vec("x")} {dinv} {c["iterations"]} {c["sweep"]}'
+        return (f'{P33}cfbj {1 if method == "cf_block_jacobi" else 0} {_encq(frac(c["omega"]))} {mat} {vec("b")} {vec("x")} {dinv} '
+                f'{enc_ints(c["Cpts"])} {enc_ints(c["Fpts"])} {c["iterations"]} {c["f_iterations"]} {c["c_iterations"]}')
+    if method == 'k_block_jacobi_indexed':
+        bp, bj, bx = extra['bsr']
+        return (f'{P33}bjik {_encq(frac(c["omega"]))} {c["nb"]} {c["bs"]} {enc_ints(bp)} {enc_ints(bj)} {ev(bx)} {vec("b")} {vec("x")} '
+                f'{vec("Dinv")} {enc_ints(c["Cpts"])}')
+    if method == 'pub_gauss_seidel_nr':
+        dinv = vec('Dinv') if c['mode'] == 'explicit' else 'none'
+        return f'{P33}pgsnr {_encq(frac(c["omega"]))} {csr} {vec("b")} {vec("x")} {dinv} {c["iterations"]} {c["sweep"]}'
     if method in ('k_block_jacobi', 'k_block_gauss_seidel'):
         bp, bj, bx = extra['bsr']
         mat = f'{c["nb"]} {c["bs"]} {enc_ints(bp)} {enc_ints(bj)} {ev(bx)}'
@@ -1272,7 +1365,7 @@ def ext_reference(c):
     """independent dense NumPy evaluation of the defining update of a case (None = not applicable)"""
     cplx = c['complex']
     dt = complex if cplx else float
-    method = c['method']
+    method = _E33_PUBLIC.get(c['method'], c['method'])
     if method in ('tobsr', 'tocsc'):
         return None
     n = c['n']
@@ -1291,7 +1384,8 @@ def ext_reference(c):
             if sw in ('backward', 'symmetric'):
                 o.append(bwd)
         return o
-    if method in ('block_jacobi', 'block_gauss_seidel', 'k_block_jacobi', 'k_block_gauss_seidel', 'cf_block_jacobi', 'fc_block_jacobi'):
+    if method in ('block_jacobi', 'block_gauss_seidel', 'k_block_jacobi', 'k_block_gauss_seidel', 'cf_block_jacobi', 'fc_block_jacobi',
+                  'k_block_jacobi_indexed'):
         bs, nb = c['bs'], c['nb']
         if c['mode'].startswith('default'):
             Dinv = np.array([np.linalg.inv(D[k * bs:(k + 1) * bs, k * bs:(k + 1) * bs]) for k in range(nb)])
@@ -1325,6 +1419,8 @@ def ext_reference(c):
                 for pts, reps in order:
                     for _r in range(reps):
                         x = jac(x, pts, x)
+        elif method == 'k_block_jacobi_indexed':
+            x = jac(x, c['Cpts'], x)
         elif method == 'block_gauss_seidel':
             for rows in passes(list(range(nb)), list(range(nb - 1, -1, -1))):
                 x = gs(x, rows)
@@ -1439,11 +1535,12 @@ def _eq_normwise(model_vals, impl):
     return exact, bool(np.max(np.abs(mv - impl)) <= 1e-9 * scale)
 
 
-def part_d(ctx, N):
+def part_d(ctx, N, casefn=None, tag='ext'):
     rng = ctx.np_rng
+    casefn = casefn or ext_case
     items = []
     for t in range(N):
-        c = ext_case(rng, t)
+        c = casefn(rng, t)
         try:
             out, extra = ext_call(c)
         except Exception as e:      # a public relaxation call must not raise on a valid system
@@ -1461,22 +1558,27 @@ def part_d(ctx, N):
         nontriv = c['n'] >= 2 and len(c['indices']) > c['n'] // max(1, c.get('bs', 1))
         ctx.case(key=hashlib.sha1(line.encode()).hexdigest(), nontrivial=nontriv,
                  sample={'request': line[:300], 'model': o[:120], 'impl': np.asarray(out).tolist()[:8] if not np.iscomplexobj(out) else str(out[:4])})
-        ctx.feat('ext:' + c['method'])
-        for k in ('mode', 'fmt', 'sweep', 'bs'):
+        ctx.feat(tag + ':' + c['method'])
+        for k in ('mode', 'fmt', 'sweep', 'bs', 'lists'):
             if k in c:
-                ctx.feat(f'ext:{c["method"]}:{k}={c[k]}')
-        ctx.feat('ext:complex' if c['complex'] else 'ext:real')
+                ctx.feat(f'{tag}:{c["method"]}:{k}={c[k]}')
+        ctx.feat(tag + ':complex' if c['complex'] else tag + ':real')
         if c['method'] not in ('tobsr', 'tocsc') and np.asarray(out).size and not np.max(np.abs(out)) < 1e12:
             ctx.near_skipped += 1       # a diverging iteration (arbitrary inverse blocks): rounding decides, nothing to compare
-            ctx.feat('ext:skipped_diverged')
+            ctx.feat(tag + ':skipped_diverged')
             continue
         exact, close = _ext_compare(c, extra, o, out)
         if exact:
-            ctx.feat('ext:bit_exact')
-            ctx.feat('ext:bit_exact:' + c['method'])
+            ctx.feat(tag + ':bit_exact')
+            ctx.feat(tag + ':bit_exact:' + c['method'])
         if not close:
-            ctx.corr('ext ' + c['method'], c, o, np.asarray(out).tolist() if not np.iscomplexobj(out) else _jl(out))
+            ctx.corr(tag + ' ' + c['method'], c, o, np.asarray(out).tolist() if not np.iscomplexobj(out) else _jl(out))
             judge_ext(ctx, c, out)
+
+
+def part_f(ctx, N):
+    """extension E33: indexed block Jacobi, CF / FC block Jacobi, public block routines on CSR input (conversion inside the model)"""
+    part_d(ctx, N, casefn=e33_case, tag='e33')
 
 
 # ------------------------------------------------------------------------------------------------
@@ -1686,7 +1788,7 @@ def part_e(ctx, N):
                 break
             if bmod or not np.array_equal(Aobj.toarray(), M0):
                 ctx.violation(f'{c["method"]} (call {k + 1} of a history) modified its matrix or right-hand side', sub)
-            items.append((h, k, c, out, ext_line(c, {}) if c['method'] in EXT_METHODS else None))
+            items.append((h, k, c, out, ext_line(c, {}) if c['method'] in LINE_METHODS else None))
     outs = iter(ctx.lean([it[4] for it in items if it[4] is not None]))
     for h, k, c, out, line in items:
         o = next(outs) if line is not None else None
@@ -1723,11 +1825,12 @@ def part_e(ctx, N):
 
 
 def run(ctx):
-    part_a(ctx, ctx.scale(1200, 24000))
+    part_a(ctx, ctx.scale(1430, 28600))
     part_b(ctx, ctx.scale(420, 8400))
     part_c(ctx, ctx.scale(360, 7200))
     part_d(ctx, ctx.scale(600, 12000))
-    part_e(ctx, ctx.scale(160, 3200))
+    part_e(ctx, ctx.scale(240, 4800))
+    part_f(ctx, ctx.scale(400, 8000))
 
 
 def search(ctx):
@@ -1735,6 +1838,7 @@ def search(ctx):
     part_b(ctx, 1500)
     part_d(ctx, 1500)
     part_e(ctx, 600)
+    part_f(ctx, 1200)
 
 
 def replay(ctx, data):
